@@ -85,6 +85,9 @@ void vk_end(const char *why)
 {
 	vk_trace("%s", why);
 	fflush(stdout);
+#ifdef VERIF_COVERAGE
+	{ extern void __gcov_dump(void); __gcov_dump(); }
+#endif
 	_exit(0);
 }
 
@@ -716,6 +719,9 @@ int main(void)
 			alarm(8);
 			run_case(line);
 			fflush(stdout);
+#ifdef VERIF_COVERAGE
+			{ extern void __gcov_dump(void); __gcov_dump(); }
+#endif
 			_exit(0);
 		}
 		waitpid(pid, &status, 0);
